@@ -41,28 +41,67 @@ Proof.
   apply final_C17; assumption.
 Qed.
 
-Theorem ok_C18_run : forall c, wf c = true -> ok_C18 c (run_obs c) = true.
+Lemma no_defect_parts : forall c, no_defect c = true ->
+  no_connect_eintr c = true /\ (c_nb c = true -> s_waits (snd (run_call c)) = []).
 Proof.
-  intros c W. destruct (moves_bytes c) eqn:MB.
-  - destruct (run_final c W MB) as (r & s & E & F). unfold run_obs. rewrite E. cbn [ok_C18].
+  intros c H. unfold no_defect, defect_nonblocking_fd_waits in H. apply andb_true_iff in H as [H1 H2].
+  split; [exact H1|]. intros N. rewrite N in H2. cbn [andb] in H2.
+  destruct (s_waits (snd (run_call c))); [reflexivity | discriminate].
+Qed.
+
+(** C18 outside the two recorded findings *)
+Theorem ok_C18_outside : forall c, wf_input c = true -> no_defect c = true -> ok_C18 c (run_obs c) = true.
+Proof.
+  intros c WI ND. destruct (no_defect_parts c ND) as [NE NW].
+  assert (W : wf c = true) by (unfold wf; now rewrite WI, NE).
+  destruct (moves_bytes c) eqn:MB.
+  - destruct (run_final c W MB) as (r & s & E & F). unfold run_obs. rewrite E in *. cbn [ok_C18].
     apply final_C18; assumption.
-  - destruct (wf_parts c W) as [LIM WS]. unfold run_obs, run_call. unfold moves_bytes in MB.
-    destruct (c_shape c) eqn:SH; try discriminate.
+  - destruct (wf_parts c W) as [LIM WS]. revert NW. unfold run_obs, run_call. unfold moves_bytes in MB.
+    destruct (c_shape c) eqn:SH; try discriminate; intros NW.
     + pose proof (run_accept_ok c) as B.
       destruct (run_accept (c_limit c) (c_script c) (init_st c)) as [[r| |] s]; try contradiction.
-      cbn [ok_C18]. apply final18_C18. rewrite SH. exact B.
-    + assert (NE : forallb no_eintr (firstn 1 (c_script c)) = true).
-      { unfold wf, no_connect_eintr in W. rewrite SH in W. apply andb_true_iff in W as [_ W]. exact W. }
-      pose proof (run_connect_ok c LIM NE) as B.
+      cbn [ok_C18]. apply final18_C18; [rewrite SH; exact B | exact NW].
+    + assert (NE' : forallb no_eintr (firstn 1 (c_script c)) = true).
+      { unfold no_connect_eintr in NE. rewrite SH in NE. exact NE. }
+      pose proof (run_connect_ok c LIM NE') as B.
       destruct (run_connect (c_limit c) (c_script c) (init_st c)) as [[r| |] s]; try contradiction.
-      cbn [ok_C18]. apply final18_C18. rewrite SH. exact B.
+      cbn [ok_C18]. apply final18_C18; [rewrite SH; exact B | exact NW].
+Qed.
+
+(** every hooked call that returns leaves the blocking mode as the caller set it: all ten entry
+    points, every accepted input (the interrupted connect never returns) *)
+Theorem mode_restored : forall c o, wf_input c = true -> run_obs c = RObs o -> o_nb_after o = c_nb c.
+Proof.
+  intros c o WI E.
+  assert (LIM : 1 <= c_limit c).
+  { unfold wf_input in WI. repeat (apply andb_true_iff in WI as [WI ?]). lia. }
+  destruct (no_connect_eintr c) eqn:NE.
+  - assert (W : wf c = true) by (unfold wf; now rewrite WI, NE).
+    destruct (wf_parts c W) as [_ WS].
+    destruct (moves_bytes c) eqn:MB.
+    + destruct (run_final c W MB) as (r & s & E2 & F). unfold run_obs in E. rewrite E2 in E.
+      inversion E; subst o. cbn [o_nb_after]. eapply final_mode; exact F.
+    + unfold run_obs, run_call in E. unfold moves_bytes in MB.
+      destruct (c_shape c) eqn:SH; try discriminate.
+      * pose proof (run_accept_ok c) as B.
+        destruct (run_accept (c_limit c) (c_script c) (init_st c)) as [[r| |] s]; try contradiction.
+        inversion E; subst o. exact (proj1 B).
+      * unfold no_connect_eintr in NE. rewrite SH in NE.
+        pose proof (run_connect_ok c LIM NE) as B.
+        destruct (run_connect (c_limit c) (c_script c) (init_st c)) as [[r| |] s]; try contradiction.
+        inversion E; subst o. exact (proj1 B).
+  - exfalso. unfold no_connect_eintr in NE. unfold run_obs, run_call in E.
+    destruct (c_shape c) eqn:SH; try discriminate.
+    pose proof (run_connect_eintr_stuck c LIM NE) as ST.
+    destruct (run_connect (c_limit c) (c_script c) (init_st c)) as [o' s]. cbn [fst] in ST. subst o'. discriminate.
 Qed.
 
 (** a zero-length request returns 0 (and makes no kernel call that moves anything) *)
 Theorem zero_len_returns_0 : forall c, wf c = true -> moves_bytes c = true -> total (c_lens c) = O ->
   exists o, run_obs c = RObs o /\ o_ret o = 0.
 Proof.
-  intros c W MB T. destruct (run_final c W MB) as (r & s & E & (F & wb & (G1 & G2 & G3 & G4 & G5) & NB & R & Wb)).
+  intros c W MB T. destruct (run_final c W MB) as (r & s & E & (F & (G1 & G2 & G3 & G4 & G5) & NB & R)).
   unfold run_obs. rewrite E. eexists. split; [reflexivity|]. cbn [o_ret].
   destruct R as [-> | (_ & _ & T' & _)]; lia.
 Qed.
